@@ -1,6 +1,7 @@
 package main
 
 import (
+	"os"
 	"fmt"
 	"go/token"
 	"go/types"
@@ -71,7 +72,14 @@ func runC02(c *Check) {
 	if root == nil {
 		return
 	}
-	_, order := p.MG().Reach([]*ssa.Function{root}, func(f *ssa.Function) bool { return fnPkgPath(f) != modPath+"/profile" })
+	parentOf, order := p.MG().Reach([]*ssa.Function{root}, func(f *ssa.Function) bool { return fnPkgPath(f) != modPath+"/profile" })
+	if d := os.Getenv("DEBUG_PATH"); d != "" {
+		for _, f := range order {
+			if strings.Contains(fnName(f), d) {
+				fmt.Println("DEBUG_PATH", callPath(parentOf, f))
+			}
+		}
+	}
 	onPath := map[*ssa.Function]bool{}
 	var pathFns []*ssa.Function
 	for _, f := range order {
@@ -402,96 +410,154 @@ func (c *Check) validityGateContent() {
 		return
 	}
 	n := 0
+	// examine: the tests that precede one insertion (at instruction at, in block b of fn) of
+	// element elem into the table mk
+	examine := func(fn *ssa.Function, b *ssa.BasicBlock, at ssa.Instruction, mk ssa.Value, elem ssa.Value, uniqueInHelper bool) {
+		kind := typeShort(elem.Type())
+		n++
+		has := map[string]bool{}
+		if uniqueInHelper {
+			has["unique id"] = true
+		}
+		for _, b2 := range fn.Blocks {
+			for _, i2 := range b2.Instrs {
+				cmp, ok := i2.(*ssa.BinOp)
+				if !ok || (cmp.Op != token.EQL && cmp.Op != token.NEQ) {
+					continue
+				}
+				dom := b2 == b || b2.Dominates(b)
+				for _, pair := range [][2]ssa.Value{{cmp.X, cmp.Y}, {cmp.Y, cmp.X}} {
+					x, y := pair[0], pair[1]
+					// element == nil
+					if dom && x == elem && isNilConst(y) {
+						has["nil element"] = true
+					}
+					// element.ID == 0
+					if ld, ok := x.(*ssa.UnOp); dom && ok && ld.Op == token.MUL {
+						if fa, ok := ld.X.(*ssa.FieldAddr); ok && fa.X == elem {
+							if _, F := fieldOf(fa.X.Type(), fa.Field); F == "ID" {
+								if k, ok := constInt(y); ok && k == 0 {
+									has["zero id"] = true
+								}
+							}
+						}
+					}
+					// table[id] != nil before the insertion
+					if lk, ok := x.(*ssa.Lookup); dom && ok && lk.X == mk && isNilConst(y) {
+						has["unique id"] = true
+					}
+					// len(table) != len(list) after the loop
+					if lx := lenArg(x); lx == mk && lenArg(y) != nil {
+						has["unique id"] = true
+					}
+				}
+			}
+		}
+		// `if _, dup := table[id]; dup` form: a comma-ok lookup whose flag decides a branch
+		for _, b2 := range fn.Blocks {
+			if !(b2 == b || b2.Dominates(b)) {
+				continue
+			}
+			for _, i2 := range b2.Instrs {
+				lk, ok := i2.(*ssa.Lookup)
+				if !ok || !lk.CommaOk || lk.X != mk || lk.Referrers() == nil {
+					continue
+				}
+				for _, r := range *lk.Referrers() {
+					if ex, ok := r.(*ssa.Extract); ok && ex.Index == 1 && ex.Referrers() != nil {
+						for _, r2 := range *ex.Referrers() {
+							if _, isIf := r2.(*ssa.If); isIf {
+								has["unique id"] = true
+							}
+						}
+					}
+				}
+			}
+		}
+		for _, what := range []string{"nil element", "zero id", "unique id"} {
+			key := "gate:" + kind + ":" + what
+			if has[what] {
+				c.ok("C02-R9", key, p.relFile(at.Pos()), "CheckValid tests "+what+" for "+kind, "a comparison on the path to the table insertion (or a size comparison of table and list)")
+			} else {
+				c.bad("C02-R9", key, p.relFile(at.Pos()), "CheckValid inserts "+kind+" into its id table without a "+what+" test although the other entity kinds have one: a document with such a "+kind+" is returned as a valid profile (with duplicate ids the last one silently wins and samples refer to an ambiguous entity)")
+			}
+		}
+	}
+	idOwner := func(key ssa.Value) ssa.Value {
+		if ld, ok := key.(*ssa.UnOp); ok && ld.Op == token.MUL {
+			if fa, ok := ld.X.(*ssa.FieldAddr); ok {
+				if _, F := fieldOf(fa.X.Type(), fa.Field); F == "ID" {
+					return fa.X
+				}
+			}
+		}
+		return nil
+	}
 	// the tables may be filled in CheckValid itself or in helpers it calls (one per table)
 	for _, b := range helperBlocks(cv, 2) {
 		fn := b.Parent()
 		for _, ins := range b.Instrs {
-			mu, ok := ins.(*ssa.MapUpdate)
-			if !ok {
-				continue
-			}
-			mk, ok := mu.Map.(*ssa.MakeMap)
-			if !ok {
-				continue
-			}
-			// the entity is the object whose ID is the key (the table may be a map to the
-			// entity or a set of ids)
-			var elem ssa.Value
-			if ld, ok := mu.Key.(*ssa.UnOp); ok && ld.Op == token.MUL {
-				if fa, ok := ld.X.(*ssa.FieldAddr); ok {
-					if _, F := fieldOf(fa.X.Type(), fa.Field); F == "ID" {
-						elem = fa.X
-					}
-				}
-			}
-			if elem == nil {
-				continue
-			}
-			kind := typeShort(elem.Type())
-			n++
-			has := map[string]bool{}
-			for _, b2 := range fn.Blocks {
-				for _, i2 := range b2.Instrs {
-					cmp, ok := i2.(*ssa.BinOp)
-					if !ok || (cmp.Op != token.EQL && cmp.Op != token.NEQ) {
-						continue
-					}
-					dom := b2 == b || b2.Dominates(b)
-					for _, pair := range [][2]ssa.Value{{cmp.X, cmp.Y}, {cmp.Y, cmp.X}} {
-						x, y := pair[0], pair[1]
-						// element == nil
-						if dom && x == elem && isNilConst(y) {
-							has["nil element"] = true
-						}
-						// element.ID == 0
-						if ld, ok := x.(*ssa.UnOp); dom && ok && ld.Op == token.MUL {
-							if fa, ok := ld.X.(*ssa.FieldAddr); ok && fa.X == elem {
-								if _, F := fieldOf(fa.X.Type(), fa.Field); F == "ID" {
-									if k, ok := constInt(y); ok && k == 0 {
-										has["zero id"] = true
-									}
-								}
-							}
-						}
-						// table[id] != nil before the insertion
-						if lk, ok := x.(*ssa.Lookup); dom && ok && lk.X == ssa.Value(mk) && isNilConst(y) {
-							has["unique id"] = true
-						}
-						// len(table) != len(list) after the loop
-						if lx := lenArg(x); lx == ssa.Value(mk) && lenArg(y) != nil {
-							has["unique id"] = true
-						}
-					}
-				}
-			}
-			// `if _, dup := table[id]; dup` form: a comma-ok lookup whose flag decides a branch
-			for _, b2 := range fn.Blocks {
-				if !(b2 == b || b2.Dominates(b)) {
+			switch x := ins.(type) {
+			case *ssa.MapUpdate:
+				mk, ok := x.Map.(*ssa.MakeMap)
+				if !ok {
 					continue
 				}
-				for _, i2 := range b2.Instrs {
-					lk, ok := i2.(*ssa.Lookup)
-					if !ok || !lk.CommaOk || lk.X != ssa.Value(mk) || lk.Referrers() == nil {
-						continue
-					}
-					for _, r := range *lk.Referrers() {
-						if ex, ok := r.(*ssa.Extract); ok && ex.Index == 1 && ex.Referrers() != nil {
-							for _, r2 := range *ex.Referrers() {
-								if _, isIf := r2.(*ssa.If); isIf {
-									has["unique id"] = true
+				// the entity is the object whose ID is the key (the table may be a map to the
+				// entity or a set of ids)
+				if elem := idOwner(x.Key); elem != nil {
+					examine(fn, b, x, mk, elem, false)
+				}
+			case *ssa.Call:
+				// insertion through a small method of the table type (possibly generic):
+				// add(id, entry) that looks the id up before it stores
+				h := x.Call.StaticCallee()
+				if h == nil || len(h.Blocks) == 0 || len(h.Params) != len(x.Call.Args) {
+					continue
+				}
+				var upd *ssa.MapUpdate
+				for _, hb := range h.Blocks {
+					for _, hi := range hb.Instrs {
+						if mu, ok := hi.(*ssa.MapUpdate); ok {
+							if _, isPar := mu.Map.(*ssa.Parameter); isPar {
+								if _, keyPar := mu.Key.(*ssa.Parameter); keyPar {
+									upd = mu
 								}
 							}
 						}
 					}
 				}
-			}
-			for _, what := range []string{"nil element", "zero id", "unique id"} {
-				key := "gate:" + kind + ":" + what
-				if has[what] {
-					c.ok("C02-R9", key, p.relFile(mu.Pos()), "CheckValid tests "+what+" for "+kind, "a comparison on the path to the table insertion (or a size comparison of table and list)")
-				} else {
-					c.bad("C02-R9", key, p.relFile(mu.Pos()), "CheckValid inserts "+kind+" into its id table without a "+what+" test although the other entity kinds have one: a document with such a "+kind+" is returned as a valid profile (with duplicate ids the last one silently wins and samples refer to an ambiguous entity)")
+				if upd == nil {
+					continue
 				}
+				var tbl, elem ssa.Value
+				for i, pr := range h.Params {
+					if ssa.Value(pr) == upd.Map {
+						tbl = x.Call.Args[i]
+					}
+					if ssa.Value(pr) == upd.Key {
+						elem = idOwner(x.Call.Args[i])
+					}
+				}
+				if ct, ok := tbl.(*ssa.ChangeType); ok {
+					tbl = ct.X
+				}
+				if _, isMk := tbl.(*ssa.MakeMap); !isMk || elem == nil {
+					continue
+				}
+				// the helper stores only after a lookup of the same key in the same table
+				unique := false
+				for _, hb := range h.Blocks {
+					if !(hb == upd.Block() || hb.Dominates(upd.Block())) {
+						continue
+					}
+					for _, hi := range hb.Instrs {
+						if lk, ok := hi.(*ssa.Lookup); ok && lk.X == upd.Map && lk.Index == upd.Key {
+							unique = true
+						}
+					}
+				}
+				examine(fn, b, x, tbl, elem, unique)
 			}
 		}
 	}
